@@ -579,7 +579,10 @@ Step1(s, a) ==
       [] a.k = "Claim"    -> MsgClaim(s, a)
       [] a.k = "Confirm"  -> MsgConfirm(s, a)
       [] a.k = "SetKeys"  -> MsgSetKeys(s, a)
-      [] a.k = "Gov"      -> IF a.p = "ColdStorage" THEN MsgGovCold(s, a) ELSE Ok(s)
+      \* TokenInfosChangeProposal: the token list is replaced (a.toks, with the store orderings the harness reports)
+      [] a.k = "Gov"      -> IF a.p = "ColdStorage" THEN MsgGovCold(s, a)
+                             ELSE IF a.p = "TokenInfos" /\ "toks" \in DOMAIN a /\ ~UseStaticCfg THEN Ok([s EXCEPT !.cfg.tokens = a.toks])
+                             ELSE Ok(s)
       [] OTHER            -> Ok(s)
 
 \* a transaction with several messages ("Tx", a.msgs): the messages run in order; if one fails, none takes effect
